@@ -8,8 +8,13 @@
    Which entry point takes the lock and which detector action it performs is NOT written here: it is the table
    gen/Gen_C10.v regenerated from the source on every run.  The pre-repair reporter (lock not given back before the
    longjmp, D17) is the same machine with cfg_reporter_unlocks = false (run_old).
+   Round 4: the history of the overload switches.  A run is a sequence of EPOCHS: all threads finish epoch i, the test thread
+   (alone) calls some of turnOff / turnOnDefaultNotThreadSafe / turnOnThreadSafe / saveAndDisable / restore NewDeleteOverloads
+   and probes every entry point once, then all threads run their scripts of epoch i+1 under whatever wiring the switches left
+   (the eleven pointers, the eleven saved_ pointers and save_counter as the source has them: sw_step).  Per epoch the model
+   counts the calls of entry points made and those that took the lock.
    No proofs in this file. *)
-From Coq Require Import NArith Arith Bool List.
+From Coq Require Import NArith ZArith Arith Bool List.
 From CppUVerif Require Import C10_Wiring gen.Gen_C10.
 Import ListNotations.
 
@@ -344,13 +349,128 @@ Fixpoint drain_peak (c : cfg) (fuel : nat) (st : state) : nat :=
 Definition run_peak (c : cfg) (sched : list nat) (st : state) : nat :=
   let st1 := exec c sched st in Nat.max (exec_peak c sched st) (drain_peak c (weight st1) st1).
 
+(* ---------------------------------------------------------------- the switches of the overloads *)
+Inductive swop :=
+| SwOff             (* turnOffNewDeleteOverloads *)
+| SwDefault         (* turnOnDefaultNotThreadSafeNewDeleteOverloads *)
+| SwSafe            (* turnOnThreadSafeNewDeleteOverloads *)
+| SwSave            (* saveAndDisableNewDeleteOverloads *)
+| SwRestore.        (* restoreNewDeleteOverloads *)
+
+(* the eleven pointers, the eleven saved_ pointers, save_counter (an int) *)
+Record swst := { sw_cur : wtable; sw_saved : wtable; sw_count : Z }.
+Definition mk_sw (cur saved : wtable) (n : Z) : swst := {| sw_cur := cur; sw_saved := saved; sw_count := n |}.
+(* MemoryLeakWarningPlugin.cpp as it is: the three turnOn/Off functions assign the regenerated tables;
+   save: if (++save_counter > 1) return; saved_x = x (eleven times); turnOff.
+   restore: if (--save_counter > 0) return; x = saved_x (eleven times) *)
+Definition sw_step (o : swst) (k : swop) : swst :=
+  match k with
+  | SwOff => mk_sw off_table (sw_saved o) (sw_count o)
+  | SwDefault => mk_sw default_table (sw_saved o) (sw_count o)
+  | SwSafe => mk_sw ts_table (sw_saved o) (sw_count o)
+  | SwSave => let n := (sw_count o + 1)%Z in
+              if (1 <? n)%Z then mk_sw (sw_cur o) (sw_saved o) n else mk_sw off_table (sw_cur o) n
+  | SwRestore => let n := (sw_count o - 1)%Z in
+                 if (0 <? n)%Z then mk_sw (sw_cur o) (sw_saved o) n else mk_sw (sw_saved o) (sw_saved o) n
+  end.
+(* a variant that is NOT the code (seeded change C10-2 of round 4): save remembers only whether the overloads were on
+   (areNewDeleteOverloaded: operator new is not the plain one), restore switches the DEFAULT overloads on *)
+Definition table_on (tb : wtable) : bool :=
+  match wlookup tb ENew with Some w => negb (action_eqb (w_action w) APlain) | None => false end.
+Definition sw_step_old (o : swst) (k : swop) : swst :=
+  match k with
+  | SwSave => let n := (sw_count o + 1)%Z in
+              if (1 <? n)%Z then mk_sw (sw_cur o) (sw_saved o) n
+              else mk_sw off_table (if table_on (sw_cur o) then default_table else off_table) n
+  | SwRestore => let n := (sw_count o - 1)%Z in
+                 if (0 <? n)%Z then mk_sw (sw_cur o) (sw_saved o) n
+                 else mk_sw (if table_on (sw_saved o) then default_table else sw_cur o) (sw_saved o) n
+  | _ => sw_step o k
+  end.
+(* the state turnOnThreadSafeNewDeleteOverloads leaves in a fresh process: the saved_ pointers still hold their static
+   initialisers (the default overloads), save_counter is 0 *)
+Definition sw_start (tb : wtable) : swst := mk_sw tb default_table 0%Z.
+
+(* ---------------------------------------------------------------- calls of entry points, and calls that took the lock *)
+Definition b2n (b : bool) : nat := if b then 1 else 0.
+(* calls that thread t's next micro-step BEGINS: a script operation entering its wrapper (for a locking wrapper: the step
+   that gets the lock; a blocked step begins nothing), the output's new[] and delete[] while it prints a failure *)
+Definition step_calls (c : cfg) (t : nat) (st : state) : nat :=
+  match nth_error (st_threads st) t with
+  | Some th =>
+      match th_pc th, th_phase th with
+      | o :: _, PIdle =>
+          if th_skip th then 0 else
+          match op_entry o with
+          | Some _ => if op_locks c o then b2n (lock_free (st_lock st)) else 1
+          | None => 0
+          end
+      | _ :: _, PPrint => if cfg_outalloc c && lock_free (st_lock st) then 2 else 0
+      | _, _ => 0
+      end
+  | None => 0
+  end.
+(* ... of which: calls through a wrapper that takes the lock *)
+Definition step_locked (c : cfg) (t : nat) (st : state) : nat :=
+  match nth_error (st_threads st) t with
+  | Some th =>
+      match th_pc th, th_phase th with
+      | o :: _, PIdle =>
+          if th_skip th then 0 else
+          match op_entry o with
+          | Some _ => b2n (op_locks c o && lock_free (st_lock st))
+          | None => 0
+          end
+      | _ :: _, PPrint => if cfg_outalloc c && lock_free (st_lock st)
+                          then b2n (w_locks (wrapper_of c ENewArr)) + b2n (w_locks (wrapper_of c EDeleteArr)) else 0
+      | _, _ => 0
+      end
+  | None => 0
+  end.
+(* summed over an execution (the same walks as exec and drain) *)
+Fixpoint exec_count (f : cfg -> nat -> state -> nat) (c : cfg) (sched : list nat) (st : state) : nat :=
+  match sched with
+  | [] => 0
+  | t :: r => f c t st + exec_count f c r (step c t st)
+  end.
+Fixpoint drain_count (f : cfg -> nat -> state -> nat) (c : cfg) (fuel : nat) (st : state) : nat :=
+  match fuel with
+  | O => 0
+  | S k => match first_enabled c st with
+           | None => 0
+           | Some t => f c t st + drain_count f c k (step c t st)
+           end
+  end.
+Definition run_count (f : cfg -> nat -> state -> nat) (c : cfg) (sched : list nat) (st : state) : nat :=
+  let st1 := exec c sched st in exec_count f c sched st + drain_count f c (weight st1) st1.
+(* the probe the test thread runs, alone, at the start of every epoch: new / new nothrow / new debug and the three of new[],
+   each given back through delete / delete[]; malloc, realloc, free.  Nothing is left outstanding. *)
+Definition probe_entries : list entry :=
+  [ENew; EDelete; ENewNothrow; EDelete; ENewDebug; EDelete; ENewArr; EDeleteArr; ENewArrNothrow; EDeleteArr; ENewArrDebug; EDeleteArr;
+   EMalloc; ERealloc; EFree].
+Definition probe_calls : nat := length probe_entries.
+Definition probe_locked (c : cfg) : nat := length (filter (fun e => w_locks (wrapper_of c e)) probe_entries).
+Definition epoch_counts (c : cfg) (sched : list nat) (st : state) : N * N :=
+  (N.of_nat (probe_calls + run_count step_calls c sched st), N.of_nat (probe_locked c + run_count step_locked c sched st)).
+
 (* ---------------------------------------------------------------- scenarios and observations *)
-Record scenario := { sc_outalloc : bool; sc_scripts : list (list op); sc_sched : list nat }.
+(* a further epoch: the switches the test thread flips in front of it, every thread's script for it, the schedule *)
+Record epoch := { ep_sw : list swop; ep_scripts : list (list op); ep_sched : list nat }.
+(* the first epoch follows turnOnThreadSafeNewDeleteOverloads directly *)
+Record scenario := { sc_outalloc : bool; sc_scripts : list (list op); sc_sched : list nat; sc_more : list epoch }.
 
 Definition init_state (s : scenario) : state :=
   mk_state sh0 LFree (map (fun sc => mk_thread sc PIdle l0 false) (sc_scripts s)) 0.
 Definition cfg_of (tb : wtable) (unlocks : bool) (s : scenario) : cfg :=
   {| cfg_wiring := tb; cfg_outalloc := sc_outalloc s; cfg_reporter_unlocks := unlocks |}.
+
+(* every thread's script as a whole: its scripts of the epochs one after another; on the test thread a new epoch is a new test *)
+Definition extend (cum segs : list (list op)) : list (list op) :=
+  match cum, segs with
+  | c0 :: cr, s0 :: sr => (c0 ++ OBoundary :: s0) :: map (fun p => fst p ++ snd p) (combine cr sr)
+  | _, _ => cum
+  end.
+Definition whole_scripts (s : scenario) : list (list op) := fold_left extend (map ep_scripts (sc_more s)) (sc_scripts s).
 
 Record obs := { o_done : bool;                       (* the run came to its end (no thread left blocked) *)
                 o_verdicts : list bool;              (* per test of the test thread: failed? *)
@@ -360,12 +480,14 @@ Record obs := { o_done : bool;                       (* the run came to its end 
                 o_foreign : N;                       (* outstanding records that no thread holds *)
                 o_rest : N;                          (* records left once every thread has released what it holds *)
                 o_overlap : N;                       (* threads seen inside the locked region at one moment, beyond the one the lock admits *)
-                o_entries : list (nat * nat * N) }.  (* outstanding blocks the threads hold: (thread, slot, size) *)
+                o_entries : list (nat * nat * N);    (* outstanding blocks the threads hold: (thread, slot, size) *)
+                o_epochs : list (N * N) }.           (* per epoch: calls of entry points made, calls that took the lock (once) *)
 
 Definition count_boundaries (ops : list op) : nat :=
   length (filter (fun o => match o with OBoundary => true | _ => false end) ops).
-Definition n_tests (s : scenario) : nat :=
-  match sc_scripts s with [] => 0 | sc :: _ => S (count_boundaries sc) end.
+Definition n_tests_of (scripts : list (list op)) : nat :=
+  match scripts with [] => 0 | sc :: _ => S (count_boundaries sc) end.
+Definition n_tests (s : scenario) : nat := n_tests_of (whole_scripts s).
 Definition verdicts_of (n : nat) (fails : list nat) : list bool :=
   map (fun i => existsb (Nat.eqb i) fails) (seq 0 n).
 
@@ -381,34 +503,88 @@ Fixpoint nodup_N (l : list N) : bool :=
   end.
 Definition Nlen {A} (l : list A) : N := N.of_nat (length l).
 
-Definition observe (s : scenario) (peak : nat) (st : state) : obs :=
+Definition observe_core (ntests : nat) (peak : nat) (counts : list (N * N)) (st : state) : obs :=
   let tb := sh_table (st_sh st) in
   let ths := st_threads st in
   {| o_done := all_done st;
-     o_verdicts := verdicts_of (n_tests s) (match ths with th :: _ => l_fails (th_loc th) | [] => [] end);
+     o_verdicts := verdicts_of ntests (match ths with th :: _ => l_fails (th_loc th) | [] => [] end);
      o_wfail := Nlen (flat_map (fun th => l_fails (th_loc th)) (tl ths));
      o_adv := sh_seq (st_sh st) - 1 - st_outallocs st;
      o_distinct := nodup_N (map t_seq tb) && forallb (fun x => (1 <=? t_seq x)%N && (t_seq x <? sh_seq (st_sh st))%N) tb;
      o_foreign := Nlen (filter (fun x => negb (held ths x)) tb);
      o_rest := Nlen (filter (fun x => negb (held ths x)) tb);
      o_overlap := N.of_nat (peak - 1);
-     o_entries := map (fun x => (t_owner x, t_slot x, t_size x)) (filter (held ths) tb) |}.
+     o_entries := map (fun x => (t_owner x, t_slot x, t_size x)) (filter (held ths) tb);
+     o_epochs := counts |}.
+Definition observe (s : scenario) : nat -> list (N * N) -> state -> obs := observe_core (n_tests s).
 
-(* the observation of the execution that follows `sched` and is then run to its end *)
-Definition completed_obs (c : cfg) (s : scenario) (sched : list nat) : obs :=
-  observe s (run_peak c sched (init_state s)) (complete c (exec c sched (init_state s))).
-Definition run_with (tb : wtable) (unlocks : bool) (s : scenario) : obs :=
-  completed_obs (cfg_of tb unlocks s) s (sc_sched s).
+(* ---------------------------------------------------------------- the run, epoch by epoch *)
+(* where the run stands: the state, the switches, the largest occupancy of the locked region so far, the counts of the
+   epochs that have been run *)
+Record progress := { pr_st : state; pr_sw : swst; pr_peak : nat; pr_counts : list (N * N) }.
+Definition mk_progress (st : state) (sw : swst) (pk : nat) (cn : list (N * N)) : progress :=
+  {| pr_st := st; pr_sw := sw; pr_peak := pk; pr_counts := cn |}.
+Definition sw_cfg (oa unlocks : bool) (sw : swst) : cfg :=
+  {| cfg_wiring := sw_cur sw; cfg_outalloc := oa; cfg_reporter_unlocks := unlocks |}.
+
+(* one epoch from a state whose threads stand at the start of their scripts: follow the schedule, then run to the end *)
+Definition run_epoch (oa unlocks : bool) (p : progress) (sched : list nat) : progress :=
+  let c := sw_cfg oa unlocks (pr_sw p) in
+  mk_progress (complete c (exec c sched (pr_st p))) (pr_sw p)
+              (Nat.max (pr_peak p) (run_peak c sched (pr_st p)))
+              (pr_counts p ++ [epoch_counts c sched (pr_st p)]).
+
+(* the threads take up their scripts of the next epoch; the test thread starts a new test *)
+Definition rearm_threads (ths : list thread) (segs : list (list op)) : list thread :=
+  match ths, segs with
+  | th0 :: tr, s0 :: sr =>
+      mk_thread s0 PIdle (next_test (th_loc th0)) false
+      :: map (fun p => mk_thread (snd p) PIdle (th_loc (fst p)) false) (combine tr sr)
+  | _, _ => ths
+  end.
+Definition rearm (st : state) (segs : list (list op)) : state :=
+  mk_state (st_sh st) (st_lock st) (rearm_threads (st_threads st) segs) (st_outallocs st).
+(* between two epochs: the switches (stepf: how the code reacts to one), the threads re-armed *)
+Definition arm (stepf : swst -> swop -> swst) (p : progress) (e : epoch) : progress :=
+  mk_progress (rearm (pr_st p) (ep_scripts e)) (fold_left stepf (ep_sw e) (pr_sw p)) (pr_peak p) (pr_counts p).
+
+Fixpoint run_more (stepf : swst -> swop -> swst) (oa unlocks : bool) (p : progress) (eps : list epoch) : progress :=
+  match eps with
+  | [] => p
+  | e :: r =>
+      if all_done (pr_st p)
+      then run_more stepf oa unlocks (run_epoch oa unlocks (arm stepf p e) (ep_sched e)) r
+      else p                                           (* a thread is left blocked: the run gets no further *)
+  end.
+
+Definition first_progress (tb : wtable) (s : scenario) : progress := mk_progress (init_state s) (sw_start tb) 0 [].
+Definition run_gen (stepf : swst -> swop -> swst) (tb : wtable) (unlocks : bool) (s : scenario) : obs :=
+  let p := run_more stepf (sc_outalloc s) unlocks
+                    (run_epoch (sc_outalloc s) unlocks (first_progress tb s) (sc_sched s)) (sc_more s) in
+  observe s (pr_peak p) (pr_counts p) (pr_st p).
+Definition run_with (tb : wtable) (unlocks : bool) (s : scenario) : obs := run_gen sw_step tb unlocks s.
 
 (* the code as it is: the wiring table regenerated from the source, the repaired reporter *)
 Definition run (s : scenario) : obs := run_with ts_table true s.
 (* the reporter before the repair (D17): the lock is still held when the test is left *)
 Definition run_old (s : scenario) : obs := run_with ts_table false s.
+(* save / restore that remember only "the overloads were on" (not the code) *)
+Definition run_swold (s : scenario) : obs := run_gen sw_step_old ts_table true s.
+
+(* the same scenario with other schedules (the first epoch's, then one per further epoch; missing ones are empty) *)
+Fixpoint resched_more (eps : list epoch) (scheds : list (list nat)) : list epoch :=
+  match eps with
+  | [] => []
+  | e :: r => {| ep_sw := ep_sw e; ep_scripts := ep_scripts e; ep_sched := hd [] scheds |} :: resched_more r (tl scheds)
+  end.
+Definition resched (s : scenario) (sched : list nat) (scheds : list (list nat)) : scenario :=
+  {| sc_outalloc := sc_outalloc s; sc_scripts := sc_scripts s; sc_sched := sched; sc_more := resched_more (sc_more s) scheds |}.
 
 (* ---------------------------------------------------------------- validity *)
 Definition max_threads : nat := 16.
 Definition max_slot : nat := 64.
 Definition max_size : N := 65536.
+Definition max_epochs : nat := 32.
 
 (* a script is well-formed on its own: allocations go to empty slots, overruns hit held blocks, entry points of the
    right kind; `ok_misuse` says whether the thread may misuse (only the thread that runs the tests can be failed) *)
@@ -448,13 +624,71 @@ Fixpoint script_ok (ops : list op) (skipping : bool) (L : local) (may_misuse : b
          end)
   end.
 
-Definition valid (s : scenario) : bool :=
-  match sc_scripts s with
-  | [] => false
-  | sc0 :: rest =>
-      (length (sc_scripts s) <=? max_threads) && script_ok sc0 false l0 true
-      && forallb (fun sc => script_ok sc false l0 false) rest
+(* ---------------------------------------------------------------- what the switches mean (no pointer in sight) *)
+(* turnOff / turnOnDefaultNotThreadSafe / turnOnThreadSafe choose which overloads are in force; saveAndDisable .. restore
+   bracket a stretch in which they are off, the brackets nest, and after the restore that closes the outermost
+   saveAndDisable the overloads that were in force before it are in force again.  For histories in which every restore
+   closes a saveAndDisable and the three direct switches are used outside the brackets only (hist_ok), that fixes which
+   overloads are in force after the history: inside a bracket none, outside the ones named by the last direct switch. *)
+Inductive mode := MOff | MDefault | MSafe.
+Fixpoint hist_depth (h : list swop) (d : nat) : option nat :=
+  match h with
+  | [] => Some d
+  | SwSave :: r => hist_depth r (S d)
+  | SwRestore :: r => match d with O => None | S d' => hist_depth r d' end
+  | _ :: r => hist_depth r d
   end.
+Fixpoint last_direct (h : list swop) (m : mode) : mode :=
+  match h with
+  | [] => m
+  | SwOff :: r => last_direct r MOff
+  | SwDefault :: r => last_direct r MDefault
+  | SwSafe :: r => last_direct r MSafe
+  | _ :: r => last_direct r m
+  end.
+Fixpoint hist_ok (h : list swop) (d : nat) : bool :=
+  match h with
+  | [] => true
+  | SwSave :: r => hist_ok r (S d)
+  | SwRestore :: r => match d with O => false | S d' => hist_ok r d' end
+  | _ :: r => Nat.eqb d 0 && hist_ok r d
+  end.
+(* the history starts where turnOnThreadSafeNewDeleteOverloads has just been called *)
+Definition doc_mode (h : list swop) : mode :=
+  match hist_depth h 0 with
+  | Some O => last_direct h MSafe
+  | _ => MOff
+  end.
+Definition doc_safe (h : list swop) : bool := match doc_mode h with MSafe => true | _ => false end.
+(* per epoch: do the switches so far say "thread-safe"? *)
+Fixpoint doc_flags_from (h : list swop) (eps : list epoch) : list bool :=
+  match eps with
+  | [] => []
+  | e :: r => doc_safe (h ++ ep_sw e) :: doc_flags_from (h ++ ep_sw e) r
+  end.
+Definition doc_flags (s : scenario) : list bool := true :: doc_flags_from [] (sc_more s).
+
+Definition seg_empty (l : list op) : bool := match l with [] => true | _ => false end.
+(* further epochs: as many scripts as threads; a history the documented meaning speaks of; scripts run only while it says
+   "thread-safe" (the property's precondition) -- otherwise the epoch consists of the switches and the probe *)
+Fixpoint more_ok (n : nat) (h : list swop) (eps : list epoch) : bool :=
+  match eps with
+  | [] => true
+  | e :: r =>
+      Nat.eqb (length (ep_scripts e)) n && hist_ok (h ++ ep_sw e) 0
+      && (doc_safe (h ++ ep_sw e) || forallb seg_empty (ep_scripts e))
+      && more_ok n (h ++ ep_sw e) r
+  end.
+
+Definition scripts_ok (scripts : list (list op)) : bool :=
+  match scripts with
+  | [] => false
+  | sc0 :: rest => script_ok sc0 false l0 true && forallb (fun sc => script_ok sc false l0 false) rest
+  end.
+Definition valid (s : scenario) : bool :=
+  (length (sc_scripts s) <=? max_threads) && (length (sc_more s) <=? max_epochs)
+  && more_ok (length (sc_scripts s)) [] (sc_more s)
+  && scripts_ok (whole_scripts s).
 
 (* ---------------------------------------------------------------- the property as an oracle over the observation *)
 (* "the outstanding set equals the union of what each thread still holds, exactly as if the operations had run one after
@@ -468,10 +702,10 @@ Fixpoint expected_entries (t : nat) (scripts : list (list op)) : list (nat * nat
   end.
 Definition expected_allocs (scripts : list (list op)) : N :=
   fold_right (fun sc a => (l_allocs (final_local sc) + a)%N) 0%N scripts.
-Definition expected_verdicts (s : scenario) : list bool :=
-  match sc_scripts s with
+Definition expected_verdicts (scripts : list (list op)) : list bool :=
+  match scripts with
   | [] => []
-  | sc :: _ => verdicts_of (n_tests s) (l_fails (final_local sc))
+  | sc :: _ => verdicts_of (n_tests_of scripts) (l_fails (final_local sc))
   end.
 
 Definition triple_eqb (a b : nat * nat * N) : bool :=
@@ -492,12 +726,24 @@ Fixpoint list_bool_eqb (a b : list bool) : bool :=
   | _, _ => false
   end.
 
-Definition spec (s : scenario) (o : obs) : bool :=
+(* the accounting, over the threads' whole scripts *)
+Definition spec_core (scripts : list (list op)) (o : obs) : bool :=
   o_done o                                                     (* the run continues to its end; the lock is not left held *)
-  && list_bool_eqb (o_verdicts o) (expected_verdicts s)        (* a misuse fails exactly the test it happens in *)
+  && list_bool_eqb (o_verdicts o) (expected_verdicts scripts)  (* a misuse fails exactly the test it happens in *)
   && N.eqb (o_wfail o) 0                                       (* every block released was outstanding: no report elsewhere *)
-  && N.eqb (o_adv o) (expected_allocs (sc_scripts s))          (* no allocation number lost or handed out twice *)
+  && N.eqb (o_adv o) (expected_allocs scripts)                 (* no allocation number lost or handed out twice *)
   && o_distinct o
   && N.eqb (o_foreign o) 0 && N.eqb (o_rest o) 0               (* nothing outstanding but what the threads hold *)
   && N.eqb (o_overlap o) 0                                     (* never two threads inside the locked region: no race on the state *)
-  && same_set (o_entries o) (expected_entries 0 (sc_scripts s)).
+  && same_set (o_entries o) (expected_entries 0 scripts).
+(* "with the thread-safe overloads switched on": in every epoch in which the switches so far say "thread-safe", every call
+   of an entry point took the detector's lock (once), and the epoch's probe was made *)
+Fixpoint epochs_ok (flags : list bool) (counts : list (N * N)) : bool :=
+  match flags, counts with
+  | [], [] => true
+  | f :: fr, (calls, locked) :: cr =>
+      (if f then N.eqb locked calls && (N.of_nat probe_calls <=? calls)%N else true) && epochs_ok fr cr
+  | _, _ => false
+  end.
+Definition spec (s : scenario) (o : obs) : bool :=
+  spec_core (whole_scripts s) o && epochs_ok (doc_flags s) (o_epochs o).
